@@ -35,18 +35,24 @@ out += ["The builders' own mutation tables (another ~150 mutants, all but a few 
 "detected) are next to the drivers: cmd/c04 … cmd/c10, cmd/c15, cmd/c16, cmd/c19, cmd/c20",
 "`SELFTEST.md`.", "",
 "## 2. Independently seeded changes (/verif/seeded)", "",
-"Forty changes, two per property, were written by fresh sub-agents that were given only",
-"the text of one property and a scratch worktree of the repository (nothing from /verif).",
+"Changes written by fresh sub-agents that were given only the text of one property and a",
+"scratch worktree of the repository (nothing from /verif): two per property in each round",
+"(round 1: -A/-B; round 2: -C/-D, the agents also got one-line descriptions of the earlier",
+"changes and were asked for different mechanisms; round 3: -E/-F, likewise).",
 "Each was re-verified by tools/seedstore.py against /repo's HEAD: the demonstration passes",
 "on the clean tree; with the patch the library builds, its own tests pass and the",
 "demonstration fails; then the property's quick check was run against the patched files.",
-"`first run` tells whether the check caught the change as first built; where it did not,",
-"the check was strengthened (see DESIGN.md section 11) and now catches it.", "",
+"`first run` tells whether the check caught the change as it stood when the change",
+"arrived; where it did not, the check was strengthened (see DESIGN.md section 11) and now",
+"catches it.", "",
 "| id | files | what was changed | detected | first key | wall s |", "|---|---|---|---|---|---|"]
-first_miss = {"C16-A", "C02-B", "C01-B", "C11-A", "C12-B", "C17-A", "C17-B", "C05-B", "C08-A", "C09-A", "C10-A", "C20-A", "C19-A"}
+first_miss = {"C16-A", "C02-B", "C01-B", "C11-A", "C12-B", "C17-A", "C17-B", "C05-B", "C08-A", "C09-A", "C10-A", "C20-A", "C19-A",
+              "C01-C", "C01-D", "C02-C", "C03-C", "C03-D", "C04-D", "C05-C", "C05-D", "C06-C", "C07-C", "C08-C", "C09-D", "C10-C", "C10-D",
+              "C11-C", "C11-D", "C12-C", "C12-D", "C15-C", "C17-C", "C17-D", "C18-C", "C18-D", "C19-C"}
+first_miss |= set(json.load(open(R + "/seeded/first_miss_round3.json"))) if os.path.exists(R + "/seeded/first_miss_round3.json") else set()
 out[-2] = "| id | files | what was changed | first run | now | first key | wall s |"
 out[-1] = "|---|---|---|---|---|---|---|"
-for d in sorted(glob.glob(R + "/seeded/*")):
+for d in sorted(glob.glob(R + "/seeded/C*-*")):
     m = json.load(open(d + "/meta.json"))
     lv = m.get("lead_verification", {})
     summ = str(m.get("summary", "")).replace("\n", " ").replace("|", "/")
